@@ -27,6 +27,7 @@ int main(int argc, char** argv)
   g_mode_s = (mode == "S");
   quill::verif::g_hook.store(hook);
   if (g_mode_s) g_virtual.store(true);
+  if (g_mode_s) vf::g_clock_read_hook = &clock_read_hook;
   Rng r{mix(seed, std::hash<std::string>{}(family + mode))};
   uint64_t done = 0;
   bool ok = true;
